@@ -412,9 +412,28 @@ def run_vacuity(unit: str, text: str, vdir: str):
     return vacuous, time.time() - t0, probed
 
 
-def run_unit(unit: str, dst: str, root: str):
+# L0 helpers that are the REAL functions inside Verus units and whose contract a Kani unit discharges bit-precisely as well
+L0_FALLBACK = {"separate_bytes": "l0_separate_bytes", "inc_addr": "l0_inc_addr", "get_byte_reg": "l0_get_byte_reg",
+               "set_byte_reg": "l0_set_byte_reg", "get_flag_state": "l0_get_flag_state"}
+
+
+def run_unit(unit: str, dst: str, root: str, _assume=()):
     """expand + verify one unit; returns dict with per-function results"""
+    res = _run_unit(unit, dst, root, _assume)
+    if not _assume:
+        bad = [f["name"] for f in res["fns"] if f["name"] in L0_FALLBACK and (f["total"] != "discharged" or f.get("invariants") != "discharged"
+               or any(c["status"] != "discharged" for c in f["clauses"]))]
+        bad += [n for n in res.get("out_of_reach", []) if n in L0_FALLBACK and n not in bad]
+        if bad:
+            res = _run_unit(unit, dst, root, tuple(bad))
+            res["l0_assumed"] = bad
+    return res
+
+
+def _run_unit(unit: str, dst: str, root: str, _assume=()):
     ex = verus_extract.Extractor(dst)
+    ex.l0_fallback = L0_FALLBACK
+    ex.assume_fns = set(_assume)
     pre = verus_extract.expand(open(os.path.join(CDIR, "prelude.rs")).read(), ex)
     tpl = open(os.path.join(CDIR, UNITS[unit]["tpl"])).read()
     if "//@emitters" in tpl:
@@ -620,6 +639,11 @@ def run_for_property(pid, tier, seed, dst, root, rep, findings):
             if a not in rep.assumptions:
                 rep.assumptions.append(a)
         r = run_unit(unit, dst, root)
+        for n in r.get("l0_assumed", []):
+            a = (f"unit {unit}: the real body of L0 helper `{n}` could not be verified inside this Verus unit on this tree (rewritten body: the "
+                 f"proof hints no longer fit); its contract is ASSUMED here and decided by Kani unit {L0_FALLBACK[n]} under the same check")
+            if a not in rep.assumptions:
+                rep.assumptions.append(a)
         rep.extra.setdefault("verus_units", []).append({"unit": unit, "wall_s": round(r["wall"], 1), "verified": r["verified"],
                                                         "errors": r["errors_n"], "times_ms": r["times"],
                                                         "rewrites": sorted(set(r["rewrites"]))[:60]})
